@@ -283,3 +283,82 @@ Theorem mix_actors_ok l acts :
   forallb (forallb (mop_ok cop_ok)) acts = true ->
   progs_wf (mix_actors l acts) /\ sess_distinct (mix_actors l acts).
 Proof. intros H. split; [apply mix_from_wf; exact H|apply mix_from_distinct]. Qed.
+
+(* ---------- any number of sessions ---------- *)
+Inductive Sub {A} : list A -> list A -> Prop :=
+| sub_nil : Sub [] []
+| sub_skip a b x : Sub a b -> Sub a (x :: b)
+| sub_keep a b x : Sub a b -> Sub (x :: a) (x :: b).
+
+Lemma sub_refl {A} (l : list A) : Sub l l.
+Proof. induction l as [|x r IH]; [constructor|apply sub_keep; exact IH]. Qed.
+
+Lemma sub_app {A} (a b c d : list A) : Sub a b -> Sub c d -> Sub (a ++ c) (b ++ d).
+Proof.
+  intros H1 H2. induction H1 as [|a b x H IH|a b x H IH]; cbn [app];
+    [exact H2|apply sub_skip; exact IH|apply sub_keep; exact IH].
+Qed.
+
+Lemma sub_forall {A} (P : A -> Prop) (a b : list A) : Sub a b -> Forall P b -> Forall P a.
+Proof.
+  intros H. induction H as [|a b x H IH|a b x H IH]; intros Hb; [constructor| |].
+  - apply IH. apply (Forall_inv_tail Hb).
+  - constructor; [apply (Forall_inv Hb)|apply IH; apply (Forall_inv_tail Hb)].
+Qed.
+
+Lemma sub_distinct (a b : list (list mstep * N)) : Sub a b -> sess_distinct b -> sess_distinct a.
+Proof.
+  intros H. induction H as [|a b x H IH|a b x H IH]; intros Hb; [exact I| |].
+  - destruct x as [prog s]. cbn [sess_distinct] in Hb. apply IH. apply (proj2 Hb).
+  - destruct x as [prog s]. cbn [sess_distinct] in *. destruct Hb as [H1 H2]. split; [|apply IH; exact H2].
+    intros Hu. apply (sub_forall _ _ _ H). apply H1. exact Hu.
+Qed.
+
+Lemma sessions_sub gk qs : sg_atomic gk = true -> Sub (sessions_actors gk qs) (one_run_each qs).
+Proof.
+  intros Hk. unfold sessions_actors, one_run_each. induction qs as [|q r IH]; cbn [map concat]; [constructor|].
+  unfold session_actors at 1.
+  pose proof (atomic_at_most_one gk (sq_n q) (sq_gsched q) Hk) as Hle.
+  destruct (accepted_n (snd (grun gk (sq_n q) (sq_gsched q)))) as [|[|k]]; [| |lia]; cbn [runs_of repeat app].
+  - apply sub_skip. exact IH.
+  - apply sub_keep. exact IH.
+Qed.
+
+(* any number of sessions, any number of clients posting input to each of them at the same time, any schedule
+   of all guard steps (per session - the flags are independent), next to any other well-formed actors: as
+   long as ONE run per session would be fine (fresh, pairwise distinct session streams), whatever is accepted
+   keeps every stream in order *)
+Theorem sessions_single_writer gk qs others sched st :
+  sg_atomic gk = true ->
+  SInv st -> Forall (fun q => forallb is_sess (sq_ts q) = true) qs -> progs_wf others ->
+  sess_fresh st (one_run_each qs ++ others) -> sess_distinct (one_run_each qs ++ others) ->
+  Valid (s_log (run sched (spawn (sessions_actors gk qs ++ others) st))).
+Proof.
+  intros Hk S Hts Hwf Hsf Hsd.
+  assert (Hsub : Sub (sessions_actors gk qs ++ others) (one_run_each qs ++ others))
+    by (apply sub_app; [apply sessions_sub; exact Hk|apply sub_refl]).
+  apply valid_all_schedules; [exact S| | |].
+  - unfold progs_wf. apply (sub_forall _ _ _ Hsub). apply Forall_app. split; [|exact Hwf].
+    unfold one_run_each. apply Forall_map. apply (Forall_impl _ (fun q Hq => wf_session (sq_ts q) Hq) Hts).
+  - unfold sess_fresh in *. apply (sub_forall _ _ _ Hsub). exact Hsf.
+  - apply (sub_distinct _ _ Hsub Hsd).
+Qed.
+
+(* non-vacuity: two sessions (3 and 2 clients) next to a thread creation *)
+Definition w_qs : list sess_req :=
+  [{| sq_sid := 7; sq_ts := w_cts_run; sq_n := 3; sq_gsched := [2; 0; 1; 2]%nat |};
+   {| sq_sid := 8; sq_ts := [ESessionStarted; ESessionEnded]; sq_n := 2; sq_gsched := [1; 0]%nat |}].
+Lemma w_qs_hyps : SInv empty_state /\ Forall (fun q => forallb is_sess (sq_ts q) = true) w_qs
+  /\ progs_wf [(create_prog [], 0)]
+  /\ sess_fresh empty_state (one_run_each w_qs ++ [(create_prog [], 0)])
+  /\ sess_distinct (one_run_each w_qs ++ [(create_prog [], 0)]).
+Proof.
+  split; [apply empty_sinv|]. split; [repeat constructor|]. split; [repeat constructor|]. split.
+  - unfold sess_fresh. repeat constructor.
+  - cbn [sess_distinct one_run_each w_qs map app sq_ts sq_sid]. repeat split; try (intros _); repeat constructor;
+      try (intros _; discriminate); try (intros H; discriminate H).
+Qed.
+Lemma w_qs_log :
+  canon_log (s_log (run [0; 1; 0; 1; 0] (spawn (sessions_actors SESS_GUARD w_qs ++ [(create_prog [], 0)]) empty_state)))
+  = [0; 0; 0;  1; 0; 0;  0; 1; 1;  1; 1; 2;  0; 2; 2].
+Proof. vm_compute. reflexivity. Qed.
